@@ -292,7 +292,9 @@ func TestVerifC08StrMap(t *testing.T) {
 	defer st.Flush()
 	rapid.Check(t, func(t *rapid.T) {
 		key := rapid.SampledFrom([]string{"form", "form", "path", "header"}).Draw(t, "key")
-		spec := gen.GenStruct(t, gen.GenConfig{Mode: key})
+		cfg := exclusions(st)
+		cfg.Mode = key
+		spec := gen.GenStruct(t, cfg)
 		u := map[string]*mapping.Unmarshaler{"form": formU, "path": pathU, "header": headerU}[key]
 		n := rapid.IntRange(1, 4).Draw(t, "ninputs")
 		for i := 0; i < n; i++ {
